@@ -40,7 +40,9 @@ class _Quoter:
             raise TypeError("Argument should be str")
         if not val:
             return ""
-        bval = val.encode("utf8", errors="ignore")
+        # Lone surrogates are dropped from the output, but only after the
+        # escape scan so that they still terminate a "%" escape window.
+        bval = val.encode("utf8", errors="surrogatepass")
         ret = bytearray()
         pct = bytearray()
         safe = self._safe
@@ -99,6 +101,10 @@ class _Quoter:
 
                 continue
 
+            if ch == 0xED and idx < len(bval) and bval[idx] >= 0xA0:
+                # encoded lone surrogate (never part of valid UTF-8), ignored
+                idx += 2
+                continue
             if self._qs and ch == ord(" "):
                 ret.append(ord("+"))
                 continue
